@@ -643,6 +643,9 @@ def result_interop(cret, fres, structs_c=None, types_f=None):
         return False, "array/descriptor function result"
     if cret["ptr"] >= 1:
         return fres["base"][0] == "cptr", "pointer result needs type(C_PTR)"
+    if cret["base"][0] == "funptr":
+        # a function returning a function pointer (18.3.3): type(C_FUNPTR), not an object pointer
+        return fres["base"][0] == "funptr", "function-pointer result needs type(C_FUNPTR)"
     if cret["base"][0] == "struct" and fres["base"][0] == "derived":
         return struct_match(cret["base"][1], fres["base"][1], structs_c, types_f)
     return scalar_match(cret["base"], fres["base"]), "result type/size differs"
